@@ -126,6 +126,7 @@ Section Chain.
     cbn [Z.eqb Pos.eqb andb negb orb]. change (2 =? 0) with false. cbv iota.
     fold (align_up cur 2).
     replace (M <? align_up cur 2 + 6) with false by lia.
+    rewrite (rd_bytes_agrees rd buf Hag 4 (align_up cur 2)) by lia. cbn [bind].
     rewrite (rd_le16 buf rd Hag) by lia. cbn [bind].
     replace (M <? align_up cur 2 + (6 + le16 buf (align_up cur 2 + 4))) with false by lia.
     rewrite mk_shift by lia.
